@@ -171,6 +171,9 @@ o:
 					}
 					return sErr
 				}
+				// The map is reused for the next message: a target the next message does
+				// not address must not be sent this one again.
+				delete(addrMap, target)
 			}
 		}
 	}
